@@ -144,6 +144,39 @@ async fn target_program(log: Log<Ev>, t: usize, inc: u32, p: TProbe, s: Scn) -> 
             }
         });
     }
+    // io_uring activity (buffers are leaked on purpose: the task dies with operations in flight)
+    {
+        let g = Guard::new(&gc);
+        let p = p.clone();
+        tokio::task::spawn_local(async move {
+            use std::os::fd::AsRawFd;
+            use turmoil::io_uring::{opcode, types, IoUring};
+            let _g = g;
+            let _ = sfs::create_dir_all("/ring");
+            let Ok(file) = sfs::OpenOptions::new().read(true).write(true).create(true).open("/ring/data") else { return };
+            let Ok(mut ring) = IoUring::new(4) else { return };
+            let fd = types::Fd(file.as_raw_fd());
+            let mut n = 0u64;
+            loop {
+                let buf: &'static mut Vec<u8> = Box::leak(Box::new(n.to_le_bytes().to_vec()));
+                let w = opcode::Write::new(fd, buf.as_ptr(), 8).offset((n % 16) * 8).build().user_data(n);
+                let f = opcode::Fsync::new(fd).build().user_data(n + 1_000_000);
+                unsafe {
+                    let _ = ring.submission().push(&w);
+                    let _ = ring.submission().push(&f);
+                }
+                let _ = ring.submit();
+                tokio::time::sleep(Duration::from_millis(3)).await;
+                let mut cq = ring.completion();
+                cq.sync();
+                while cq.next().is_some() {
+                    p.progress.set(p.progress.get() + 1);
+                }
+                drop(cq);
+                n += 1;
+            }
+        });
+    }
     // udp echo
     {
         let g = Guard::new(&gc);
@@ -1001,7 +1034,7 @@ pub fn run(ctx: &Ctx) -> ! {
 fn fin() -> Finish<'static> {
     Finish {
         level: "fault_enumeration",
-        rule: "workloads (seeded: tick, fixed latency, 3-6 peer streams with different connect times / think times, accept gap so SYNs queue, UDP unicast+multicast pings, background ticker + fs tasks on the target, isolated pair c<->d with TCP/UDP/fs/clock samples, optionally two targets crashed by regex) x an injection after every step of the run (thorough: every step; quick: ~45% of the steps) drawn from {crash, crash+bounce after 0/1/2-6 steps, bounce without crash, two crash/bounce cycles}; evaluations = workloads, executions counted separately; non-trivial = workload with >=5 injection points; distinct = digest of (injections, log sizes)",
+        rule: "workloads (seeded: tick, fixed latency, 3-6 peer streams with different connect times / think times, accept gap so SYNs queue, UDP unicast+multicast pings, background ticker + fs + io_uring tasks on the target, a window-limited bulk download with a slow reader, isolated pair c<->d with TCP/UDP/fs/clock samples, optionally two targets crashed by regex) x an injection after every step of the run (thorough: every step; quick: ~45% of the steps) drawn from {crash, crash+bounce after 0/1/2-6 steps, bounce without crash, two crash/bounce cycles}; evaluations = workloads, executions counted separately; non-trivial = workload with >=5 injection points; distinct = digest of (injections, log sizes)",
         assumptions: vec![
             "fixed latency and fixed node order so that the shared world rng cannot legitimately couple the isolated pair to the crashed host (twin comparison)".into(),
             "hosts whose main future already returned are never crashed".into(),
